@@ -154,13 +154,13 @@ def exotic(v, seed):
     return rec(v, True)
 
 
-def container(r, depth=3, names=None, budget=None, strings=None, falsy_bias=0.0):
+def container(r, depth=3, names=None, budget=None, strings=None, falsy_bias=0.0, wide_p=0.04):
     """A non-scalar value (so that queries have something to select)."""
     names = names or SIMPLE_NAMES
     if budget is None:
         budget = [25]
     k = r.random()
-    if k > 0.96:
+    if k > 1.0 - wide_p:
         w = wide(r, names)
         if r.random() < 0.5:
             return w
